@@ -100,4 +100,26 @@ pub fn run<A: Cx>(d: &mut Drv<A>, scale: usize) {
     for r in 0..R {
         d.obs(whole(r));
     }
+    // growth: many single pushes / small extends on one value (reallocations, capacity doubling),
+    // from an empty value created with different capacities
+    for (cap_via, cap) in [("new", 0usize), ("withcap", 1), ("withcap", 1000), ("default", 0)] {
+        d.emit(json!({"op": "new", "dst": 0, "c": A::NAME, "via": cap_via, "cap": cap}));
+        let total = 150 + d.rng.below(3 * 64 / w + 200);
+        let mut n = 0;
+        while n < total {
+            if d.rng.chance(3, 4) {
+                let x = d.rand_syms(1)[0];
+                d.emit(json!({"op": "push", "dst": 0, "x": x}));
+                n += 1;
+            } else {
+                let k = d.rng.range(0, 70);
+                let xs = d.rand_syms(k);
+                d.emit(json!({"op": "extend", "dst": 0, "syms": xs}));
+                n += k;
+            }
+        }
+        d.emit(json!({"op": "clear", "dst": 0}));
+        let xs = d.rand_syms(5);
+        d.emit(json!({"op": "extend", "dst": 0, "syms": xs}));
+    }
 }
